@@ -80,7 +80,7 @@ def load_findings():
                 continue
             kind, _, rest = line.partition(":")
             fields = dict(tok.split("=", 1) for tok in rest.split() if "=" in tok and tok.split("=", 1)[0] in ("property", "key"))
-            text = rest.strip()
+            text = " ".join(t for t in rest.split() if not t.startswith("property="))
             if kind == "known":
                 known.append({"property": fields.get("property"), "key": fields.get("key"), "text": text})
             elif kind == "fixed":
@@ -102,6 +102,8 @@ def shard_main(pid, spec_path, out_path):
     wd = int(os.environ.get("VERIF_SHARD_WATCHDOG", "0"))
     if wd:
         faulthandler.dump_traceback_later(wd, exit=True)
+    import logging
+    logging.disable(logging.CRITICAL)     # the library logs every retry / decode error; keep the shard's output small
     env.ensure_deps()
     env.goodwe()
     mod = load_check(pid)
@@ -135,7 +137,7 @@ def run_check(pid: str, tier: str) -> int:
             json.dump(spec, open(sp, "w"), default=_js)
             p = subprocess.Popen([sys.executable] + (["-X", "dev"] if getattr(mod, "DEV_MODE", False) else []) +
                                  [vcheck, "shard", pid, sp, op],
-                                 env=childenv, stdout=subprocess.PIPE, stderr=subprocess.STDOUT, text=True)
+                                 env=childenv, stdout=open(op + ".log", "w"), stderr=subprocess.STDOUT, text=True)
             running[i] = (p, op, time.time())
         for i, (p, op, st) in list(running.items()):
             rc_ = p.poll()
@@ -146,7 +148,10 @@ def run_check(pid: str, tier: str) -> int:
                     inconclusive.append(f"shard {i} exceeded the wall-clock watchdog ({budget}s)")
                     del running[i]
                 continue
-            out = p.stdout.read() if p.stdout else ""
+            try:
+                out = open(op + ".log").read()[-4000:]
+            except OSError:
+                out = ""
             del running[i]
             if rc_ != 0 or not os.path.exists(op):
                 inconclusive.append(f"shard {i} died (exit {rc_}): {out.strip()[-600:]}")
